@@ -31,7 +31,7 @@ def stateOf (j : Json) : Except String KeyState := do
   let inputs ← getBytesList j "inputs"
   let files ← getPairs j "files"
   let outs ← getPairs j "outputs"
-  let deps ← getBytesList j "deps"
+  let depsP ← getPairs j "deps"
   let fp ← getPairs j "fingerprint"
   let platform ← (match j.getObjVal? "platform" with
     | .ok v => if v.isNull then pure none else (asBytes v).map some
@@ -45,7 +45,7 @@ def stateOf (j : Json) : Except String KeyState := do
     inputs := inputs
     content := fun p => match files.lookup p with | some c => c | none => none
     outputs := outs.map (fun o => o.1 ++ colon2 ++ o.2.getD []) ++ bin
-    deps := deps
+    deps := depsP.map (fun kv => (kv.1, kv.2.getD []))
     fingerprint := fp.map (fun kv => (kv.1, kv.2.getD []))
     platform := platform }
 
